@@ -13,8 +13,11 @@ import (
 	"github.com/risor-io/risor/internal/verifhook"
 	modFmt "github.com/risor-io/risor/modules/fmt"
 	modJSON "github.com/risor-io/risor/modules/json"
+	modMath "github.com/risor-io/risor/modules/math"
+	modOs "github.com/risor-io/risor/modules/os"
 	modStrings "github.com/risor-io/risor/modules/strings"
 	"github.com/risor-io/risor/object"
+	ros "github.com/risor-io/risor/os"
 	"github.com/risor-io/risor/parser"
 	"github.com/risor-io/risor/verif/fw"
 	"github.com/risor-io/risor/verif/sim"
@@ -114,7 +117,7 @@ func (o *c05Obs) diff(b *c05Obs) string {
 func c05Globals(h *Host) map[string]any {
 	return map[string]any{
 		"mark": h.Recorder("mark"), "emit": h.RecorderRet("emit", 1), "emits": h.Recorder("emits"),
-		"json": modJSON.Module(), "strings": modStrings.Module(), "fmt": modFmt.Module(),
+		"json": modJSON.Module(), "strings": modStrings.Module(), "fmt": modFmt.Module(), "math": modMath.Module(), "os": modOs.Module(),
 		// host-supplied Go maps and a struct with map fields (conversion paths)
 		"hm":  map[string]any{"z": 1, "a": []any{1, 2}, "m": map[string]any{"k": "v", "b": 2}, "q": "s"},
 		"hmi": map[string]int{"one": 1, "two": 2, "three": 3},
@@ -129,8 +132,47 @@ func c05Once(src string, pol *orderPolicy) *c05Obs {
 	defer func() { verifhook.MapOrderFn = prev }()
 	obs := &c05Obs{}
 	h := &Host{}
-	cfg := risor.NewConfig(baseOpts(c05Globals(h))...)
 	ctx := context.Background()
+	// configuration flags ride in the first line of the program ("// flags: ...")
+	useDefaults := strings.Contains(firstLineOf(src), "defaults")
+	useVOS := strings.Contains(firstLineOf(src), "vos")
+	var opts []risor.Option
+	if useDefaults {
+		// the default global environment is assembled inside this repetition,
+		// under this repetition's iteration orders
+		opts = []risor.Option{risor.WithGlobals(c05Globals(h)), risor.WithConcurrency()}
+	} else {
+		opts = baseOpts(c05Globals(h))
+	}
+	var mocks []*ros.MockFS
+	if useVOS {
+		// risor's own VirtualOS with nested mount points over in-memory filesystems
+		for i := 0; i < 3; i++ {
+			mocks = append(mocks, ros.NewMockFS())
+		}
+		for i, tag := range []string{"root-fs", "data-fs", "deep-fs"} {
+			// (a mount at "/" hands its source paths without the leading slash)
+			mocks[i].WriteFile("/seed.txt", []byte(tag), 0o644)
+			mocks[i].WriteFile("seed.txt", []byte(tag), 0o644)
+		}
+		vos := ros.NewVirtualOS(ctx, ros.WithCwd("/"), ros.WithMounts(map[string]*ros.Mount{
+			"/":          {Source: mocks[0], Target: "/", Type: "mem"},
+			"/data":      {Source: mocks[1], Target: "/data", Type: "mem"},
+			"/data/deep": {Source: mocks[2], Target: "/data/deep", Type: "mem"},
+		}), ros.WithEnvironment(map[string]string{"B": "2", "A": "1", "C": "3"}))
+		opts = append(opts, risor.WithOS(vos))
+	}
+	cfg := risor.NewConfig(opts...)
+	defer func() {
+		// where the files ended up is observable too
+		for i, m := range mocks {
+			for _, name := range []string{"/f.txt", "/g.txt", "/top.txt", "top.txt", "/data/f.txt", "data/f.txt", "/deep/g.txt", "/data/deep/g.txt", "data/deep/g.txt"} {
+				if b, err := m.ReadFile(name); err == nil {
+					obs.Log += fmt.Sprintf("\nfs%d:%s=%q", i, name, b)
+				}
+			}
+		}
+	}()
 	ast, err := parser.Parse(ctx, src)
 	if err != nil {
 		obs.Stage, obs.Err = "parse", err.Error()
@@ -179,18 +221,48 @@ func c05Once(src string, pol *orderPolicy) *c05Obs {
 	return obs
 }
 
+func firstLineOf(s string) string {
+	if i := strings.IndexByte(s, '\n'); i >= 0 {
+		return s[:i]
+	}
+	return s
+}
+
 func genC05Program(g *sim.Stream, tier string) string {
 	cg := newCoreGen(g)
 	cg.MapHeavy = true
+	useDefaults := g.Chance(1, 3)
+	useVOS := g.Chance(1, 4)
 	maxN := 10
 	if tier == "thorough" {
 		maxN = 40
 	}
 	stmts := cg.Program(g.Range(2, maxN))
 	var b strings.Builder
+	b.WriteString("// flags:")
+	if useDefaults {
+		b.WriteString(" defaults")
+	}
+	if useVOS {
+		b.WriteString(" vos")
+	}
+	b.WriteString("\n")
 	for _, st := range stmts {
 		b.WriteString(st.Src)
 		b.WriteString("\n")
+	}
+	if useDefaults {
+		// sprintf exists twice among the default globals (builtins and fmt);
+		// which one a script sees must not vary
+		fmt.Fprintf(&b, "emits(sprintf(\"%%v|%%v\", %s, %s))\n", cg.mapExpr(1), cg.listExpr(1))
+		b.WriteString("emits(string(math.sum({10000000000000000.0, 1.0, -10000000000000000.0, 2.5, 3.25})))\n")
+		b.WriteString("emits(string(math.sum({0.1, 0.2, 0.3, 0.4, 0.5, 0.6, 0.7})))\n")
+	}
+	if useVOS {
+		b.WriteString("os.write_file(\"/data/f.txt\", \"to-data\")\nos.write_file(\"/data/deep/g.txt\", \"to-deep\")\nos.write_file(\"/top.txt\", \"to-root\")\n")
+		b.WriteString("emits(string(os.read_file(\"/data/seed.txt\")))\nemits(string(os.read_file(\"/data/deep/seed.txt\")))\nemits(string(os.read_file(\"/seed.txt\")))\n")
+		b.WriteString("emits(string(try(func() { return os.read_dir(\"/data\").map(func(e) { return e.name }) }, func(e) { return string(e) })))\n")
+		b.WriteString("emits(string(sorted(os.environ())))\n")
 	}
 	// extra observable uses of containers
 	maps := cg.varsOf(tMap, false)
